@@ -804,7 +804,13 @@ class Fn:
         if isinstance(s, ast.Raise):
             return pad + 'Flow.err'
         if isinstance(s, ast.Expr) and isinstance(s.value, ast.Call) and isinstance(s.value.func, ast.Name) and s.value.func.id == 'print':
-            return self.block(rest, ind, assigned)                          # debug output
+            # debug output: nothing is printed in the model, but the arguments are evaluated (they can raise)
+            lines_ = []
+            for a_ in s.value.args:
+                c_, t_, o_ = self.cxr(a_, assigned)
+                if o_:
+                    lines_.append(pad + 'Flow.ofOpt (%s) fun _ =>' % c_)
+            return ''.join(l + '\n' for l in lines_) + self.block(rest, ind, assigned)
         if isinstance(s, ast.If):
             c, tc, oc = self.cxr(s.test, assigned)
             if tc == 'int' and self.tr.pyx:
@@ -1009,6 +1015,107 @@ class Fn:
         return k
 
     # ---------- whole function
+    def safety_checks(self):
+        """reject the patterns whose Python meaning the value-semantics translation would not reproduce
+        (reference semantics of arrays, loop-variable leakage, bounds re-evaluated); found by the fourth audit"""
+        node = self.node
+
+        def own_walk(root):
+            """the nodes of this function, not those of nested function definitions"""
+            stack = [root]
+            while stack:
+                x = stack.pop()
+                yield x
+                for ch in ast.iter_child_nodes(x):
+                    if isinstance(ch, ast.FunctionDef) and ch is not root:
+                        continue
+                    stack.append(ch)
+        # names that are mutated in place: a[i] = …, a[i:j] = …, a[i] += …
+        mutated = set()
+        for n in own_walk(node):
+            tg = []
+            if isinstance(n, ast.Assign):
+                for t in n.targets:
+                    tg += list(t.elts) if isinstance(t, ast.Tuple) else [t]
+            elif isinstance(n, ast.AugAssign):
+                tg = [n.target]
+            for t in tg:
+                if isinstance(t, ast.Subscript) and isinstance(t.value, ast.Name):
+                    mutated.add(t.value.id)
+        self.mutated = mutated
+        for n in own_walk(node):
+            if isinstance(n, ast.Assign) and len(n.targets) == 1:
+                t, v = n.targets[0], n.value
+                # tuple assignment with element targets: the stores would be made against the same old array
+                if isinstance(t, ast.Tuple) and sum(isinstance(x, ast.Subscript) for x in t.elts) > 1:
+                    self.fail(n, 'tuple assignment to several array elements')
+                # aliases and views: `b = a`, `b = a[i:j]` share memory in numpy; sound only if neither is mutated
+                if isinstance(t, ast.Name):
+                    base = None
+                    if isinstance(v, ast.Name):
+                        base = v.id
+                    elif isinstance(v, ast.Subscript) and isinstance(v.slice, ast.Slice) and isinstance(v.value, ast.Name):
+                        base = v.value.id
+                    if base is not None and base != t.id and (base in mutated or t.id in mutated) \
+                            and (base in getattr(self, 'types', {}) or True):
+                        # only arrays matter; scalars are immutable. The type is not known yet, so decide by use:
+                        arrayish = base in mutated or t.id in mutated
+                        if arrayish:
+                            self.fail(n, 'array alias / view `%s = %s…` while one of them is modified in place' % (t.id, base))
+        # for-loops: the variable must not be read outside loops that (re)bind it; the bound must not depend on
+        # anything the body modifies (it is evaluated once in Python)
+        fors = [n for n in own_walk(node) if isinstance(n, ast.For) and isinstance(n.target, ast.Name)]
+        for f in fors:
+            i = f.target.id
+            inside = set()
+            for g in fors:
+                if g.target.id == i:
+                    for b in g.body:
+                        inside |= {id(x) for x in ast.walk(b)}
+            for x in own_walk(node):
+                if isinstance(x, ast.Name) and x.id == i and isinstance(x.ctx, ast.Load) and id(x) not in inside:
+                    self.fail(f, 'loop variable %s is read outside its loop' % i)
+            bound_names = {x.id for x in ast.walk(f.iter) if isinstance(x, ast.Name)}
+            # a name that occurs in the bound only as `len(name)` is used for its length, which element stores keep
+            len_only = set(bound_names)
+            for x in ast.walk(f.iter):
+                if isinstance(x, ast.Name):
+                    par_ok = any(isinstance(c, ast.Call) and isinstance(c.func, ast.Name) and c.func.id == 'len'
+                                 and len(c.args) == 1 and c.args[0] is x for c in ast.walk(f.iter))
+                    if not par_ok:
+                        len_only.discard(x.id)
+            rebound, elem_mut = set(), set()
+            for b in f.body:
+                for x in ast.walk(b):
+                    if isinstance(x, ast.Name) and isinstance(x.ctx, ast.Store):
+                        rebound.add(x.id)
+                    if isinstance(x, ast.Subscript) and isinstance(x.ctx, ast.Store) and isinstance(x.value, ast.Name):
+                        elem_mut.add(x.value.id)
+            bad = (bound_names & rebound) | ((bound_names - len_only) & elem_mut)
+            if bad:
+                self.fail(f, 'the bound of the for loop depends on %s, which the body modifies' % sorted(bad))
+
+    def check_cdef_types(self):
+        """pyx mode: the `cdef T names` declarations (marker statements left by pyx2py) against the inferred types:
+        a `cdef int` local that receives a double truncates in C, an inferred Int declared `double` divides as a double"""
+        cmap = {'int': 'int', 'long': 'int', 'bint': 'int', 'double': 'rat', 'float': 'rat', 'double[:]': 'arr'}
+        for n in ast.walk(self.node):
+            if isinstance(n, ast.Expr) and isinstance(n.value, ast.Constant) and isinstance(n.value.value, str):
+                txt = n.value.value
+                if txt.startswith('__cdef__ '):
+                    ctype, names = txt[len('__cdef__ '):].split(' : ')
+                    want = cmap.get(ctype)
+                    if want is None:
+                        self.fail(n, 'cdef type %s' % ctype)
+                    for nm in names.split():
+                        have = self.types.get(nm)
+                        if have is None:
+                            continue            # declared but never assigned
+                        if have != want and not (have == 'int' and want == 'rat' and False):
+                            self.fail(n, 'cdef %s %s: the translation infers %s for it' % (ctype, nm, have))
+                elif txt.startswith('__cdef_ret__ '):
+                    self.cdef_ret = cmap.get(txt[len('__cdef_ret__ '):].strip())
+
     def strip_coercions(self):
         """pyx mode: the transliterator turns the C parameter types into leading statements
         `x = _mv(x)` / `x = float(x)` / `x = int(x)`; they ARE the signature"""
@@ -1051,7 +1158,8 @@ class Fn:
             note += '; Python defaults of the last %d parameters: %s' % (len(dflt), ', '.join(dflt))
         if node.decorator_list:
             note += '; decorators: %s' % ', '.join(ast.unparse(d) for d in node.decorator_list)
-        self.sig_note = getattr(self, 'sig_note', '') or note
+        self.sig_note = (getattr(self, 'sig_note', '') or '') + (note if not getattr(self, 'sig_note', '') else
+                                                                  ('; decorators: %s' % ', '.join(ast.unparse(d) for d in node.decorator_list) if node.decorator_list else ''))
         if a.vararg or a.kwarg or a.kwonlyargs or a.posonlyargs:
             self.fail(node, 'argument kinds')
         names = [x.arg for x in a.args]
@@ -1060,6 +1168,7 @@ class Fn:
         if names != [p for p, _ in self.params]:
             self.fail(node, 'parameter list %s differs from the signature table %s' % (names, [p for p, _ in self.params]))
         out = []
+        self.safety_checks()
         if any(isinstance(n, (ast.Break, ast.Continue)) for n in ast.walk(node)):
             node.body = desugar_break_continue(node.body, [0])
         # nested function definitions are hoisted (they must not use variables of the enclosing function)
@@ -1105,6 +1214,8 @@ class Fn:
                 out.append(sub.translate())
                 self.nested[s.name] = sub
         self.infer_locals()
+        if self.tr.pyx:
+            self.check_cdef_types()
         self.ret_tuple = None
         self.nfresh = 0
         assigned = {p for p, _ in self.params}
@@ -1112,6 +1223,9 @@ class Fn:
         self.ret_tuple = self.find_ret()
         main = self.block(node.body, 1, assigned)
         rt = self.ret_tuple
+        cr = getattr(self, 'cdef_ret', None)
+        if cr is not None and len(rt) == 1 and rt[0] != cr and not (rt[0] == 'int' and cr == 'rat'):
+            self.fail(node, 'C return type %s, but the routine returns %s' % (cr, rt[0]))
         self.ret = rt[0] if len(rt) == 1 else None
         self.ret_types = rt
         q = self.qual
@@ -1153,6 +1267,48 @@ class Fn:
         return self.node
 
 
+
+def source_digest(repo, relpaths):
+    """one comment line per source file with the sha256 of its text (line endings normalised). The translation
+    looks only at the translated definitions; everything else in those files (imports, module- and class-level
+    statements, other methods, `__init__`, later re-bindings, C directives) can change what the translated
+    names MEAN without changing the generated definitions. With the digest in the generated text every edit of a
+    source file makes the comparison report `changed` (the proofs are then re-checked and, for an edit outside
+    the translated definitions, still check — which is reported as such and calls for a look at the diff)."""
+    import hashlib
+    out = []
+    for rp in relpaths:
+        pth = os.path.join(repo, rp)
+        if os.path.exists(pth):
+            data = open(pth, 'rb').read().replace(b'\r\n', b'\n')
+            out.append('-- source %s sha256 %s' % (rp, hashlib.sha256(data).hexdigest()[:24]))
+        else:
+            out.append('-- source %s absent' % rp)
+    return '\n'.join(out) + '\n'
+
+
+def check_no_rebinding(tree, names, where, cls=None):
+    """the translated names must be bound exactly once, by a plain `def`, in their module / class"""
+    body = tree.body
+    if cls is not None:
+        cs = [n for n in body if isinstance(n, ast.ClassDef) and n.name == cls]
+        if len(cs) != 1:
+            raise Untranslatable('%s: class %s is defined %d times' % (where, cls, len(cs)))
+        for n in body:
+            for t in (n.targets if isinstance(n, ast.Assign) else [n.target] if isinstance(n, (ast.AugAssign, ast.AnnAssign)) else []):
+                if isinstance(t, ast.Attribute) and isinstance(t.value, ast.Name) and t.value.id == cls:
+                    raise Untranslatable('%s: %s.%s is re-bound at module level' % (where, cls, t.attr))
+                if isinstance(t, ast.Name) and t.id == cls:
+                    raise Untranslatable('%s: %s is re-bound at module level' % (where, cls))
+        body = cs[0].body
+    for nm in names:
+        defs = [n for n in body if isinstance(n, (ast.FunctionDef, ast.AsyncFunctionDef, ast.ClassDef)) and n.name == nm]
+        assigns = [n for n in body if isinstance(n, (ast.Assign, ast.AugAssign, ast.AnnAssign))
+                   and any(isinstance(x, ast.Name) and x.id == nm and isinstance(x.ctx, ast.Store) for x in ast.walk(n))]
+        if len(defs) != 1 or assigns:
+            raise Untranslatable('%s: %s is bound %d times by def and %d times by assignment' % (where, nm, len(defs), len(assigns)))
+
+
 class Translator:
     pyx = False
     IDX, SET = 'pyIdx', 'pySet'
@@ -1167,13 +1323,15 @@ class Translator:
         out = ['/-\n  Gen/Backend.lean — GENERATED by harness/py2lean.py from the pure-Python backend of /repo.\n'
                '  Do not edit: the check regenerates this text from the current tree on every run and compares.\n-/\n'
                'import PySpikeVerif.Gen.Prelude\n'
-               'set_option linter.unusedVariables false\n'
+               'set_option linter.unusedVariables false\n' +
+               source_digest(self.repo, ['pyspike/cython/python_backend.py', 'pyspike/cython/directionality_python_backend.py']) +
                'namespace PySpike.Gen\n']
         for fname in ('python_backend.py', 'directionality_python_backend.py'):
             path = os.path.join(self.repo, 'pyspike', 'cython', fname)
             src = open(path, 'rb').read().decode('utf-8')
             tree = ast.parse(src)
             sigs = SIGS[fname]
+            check_no_rebinding(tree, [k for k in sigs if '.' not in k], fname)
             self.sigs.update(sigs)
             out.append('-- ' + '=' * 70 + '\n-- pyspike/cython/%s\n' % fname)
             seen = set()
@@ -1212,7 +1370,9 @@ class PyxTranslator(Translator):
         out = ['/-\n  Gen/BackendPyx.lean — GENERATED by harness/py2lean.py from the Cython sources of /repo\n'
                '  (pyspike/cython/*.pyx, transliterated by harness/pyx2py.py). Do not edit.\n-/\n'
                'import PySpikeVerif.Gen.Prelude\n'
-               'set_option linter.unusedVariables false\n'
+               'set_option linter.unusedVariables false\n' +
+               source_digest(self.repo, ['pyspike/cython/%s.pyx' % m_ for m_ in pyx2py.PYX_FILES] +
+                             ['pyspike/cython/%s.pxd' % m_ for m_ in pyx2py.PYX_FILES if os.path.exists(os.path.join(self.repo, 'pyspike', 'cython', m_ + '.pxd'))]) +
                'namespace PySpike.GenPyx\nopen PySpike.Gen\n']
         mapping = {n: 'pyx_' + n for n in pyx2py.PYX_FILES}
         exported = {}
@@ -1223,6 +1383,8 @@ class PyxTranslator(Translator):
             except pyx2py.Untranslatable as ex:
                 raise Untranslatable('%s.pyx: %s' % (mod, ex))
             tree = ast.parse(code)
+            names_ = [n.name for n in tree.body if isinstance(n, ast.FunctionDef) and not n.name.startswith('_') and n.name not in ('fabs', 'fmax', 'fmin')]
+            check_no_rebinding(tree, sorted(set(names_)), mod + '.pyx')
             out.append('-- ' + '=' * 70 + '\n-- pyspike/cython/%s.pyx\n' % mod)
             self.fns = {}
             for node in tree.body:
@@ -1278,13 +1440,15 @@ class ClassTranslator(Translator):
         out = ['/-\n  Gen/%s.lean — GENERATED by harness/py2lean.py from the function classes of /repo\n'
                '  (pyspike/PieceWiseConstFunc.py, PieceWiseLinFunc.py, DiscreteFunc.py). Do not edit.\n-/\n'
                'import PySpikeVerif.Gen.Prelude\n'
-               'set_option linter.unusedVariables false\n'
-               'namespace PySpike.GenCls\nopen PySpike.Gen\n' % ('Classes2' if second else 'Classes')]
+               'set_option linter.unusedVariables false\n' % ('Classes2' if second else 'Classes') +
+               source_digest(self.repo, sorted({'pyspike/' + sp[0] for sp in (self.SPECS2 if second else self.SPECS)})) +
+               'namespace PySpike.GenCls\nopen PySpike.Gen\n']
         self.methods = {}
         trees = {}
         for fname, cls, meth, lname_, fields, pk in (self.SPECS2 if second else self.SPECS):
             if fname not in trees:
                 trees[fname] = ast.parse(open(os.path.join(self.repo, 'pyspike', fname), 'rb').read().decode('utf-8'))
+            check_no_rebinding(trees[fname], [meth], fname, cls=cls)
             cnode = [n for n in trees[fname].body if isinstance(n, ast.ClassDef) and n.name == cls]
             if not cnode:
                 raise Untranslatable('%s: class %s not found' % (fname, cls))
@@ -1342,10 +1506,12 @@ class IsiLengthsTranslator(Translator):
     def run(self):
         out = ['/-\n  Gen/IsiLengths.lean — GENERATED by harness/py2lean.py from pyspike/isi_lengths.py of /repo. Do not edit.\n-/\n'
                'import PySpikeVerif.Gen.Prelude\n'
-               'set_option linter.unusedVariables false\n'
+               'set_option linter.unusedVariables false\n' +
+               source_digest(self.repo, ['pyspike/isi_lengths.py']) +
                'namespace PySpike.GenIsiLen\nopen PySpike.Gen\n']
         path = os.path.join(self.repo, 'pyspike', 'isi_lengths.py')
         tree = ast.parse(open(path, 'rb').read().decode('utf-8'))
+        check_no_rebinding(tree, ['isi_lengths'], 'isi_lengths.py')
         node = [n for n in tree.body if isinstance(n, ast.FunctionDef) and n.name == 'isi_lengths']
         if not node:
             raise Untranslatable('isi_lengths.py: function isi_lengths not found')
